@@ -11,8 +11,8 @@ import (
 
 func init() {
 	register(&propDef{
-		id:  "C07",
-		run: runC07,
+		id:          "C07",
+		run:         runC07,
 		explanation: "Static analysis of file lifetime management: (1) a new version is referenced before the old one is released; (2) table files are removed only through the file cache's deletion callback (which runs after the last handle is released), direct storage Remove calls exist only in a reviewed set of functions, and the reference loop removes a table only when its count reached zero; (3) every session.version() reference is released or transferred on every CFG path (typestate); (4) buffer references are never over-released (every decref is matched by an acquisition in the same function or is a named ownership release); (5) partial outputs are removed on failure (deferred drop/cleanup, revert on the exit panic, discard of transaction tables before the lock is released); (6) the startup sweep deletes a file only on the false edge of its keep-condition and only after the missing-table check passed. Necessary conditions only: the delta arithmetic of refLoop (abandoned ids, >256 queued versions) is value/order dependent and NOT decided.",
 		notCovered:  "refLoop's delta arithmetic across abandoned ids and long-pinned versions; that space is actually reclaimed; timing of releases",
 		assumptions: []string{"cache.Cache.Delete runs its delFunc after the last handle of the node is released (C17)", "reviewed deleter table in rules_c07.go"},
@@ -21,15 +21,15 @@ func init() {
 
 // reviewed functions that may invoke Storage.Remove directly
 var reviewedDeleters = map[string]string{
-	"(*leveldb.tOps).remove$1":               "the file-cache deletion callback: runs after the last reader handle is released",
-	"(*leveldb.tWriter).drop":                "a table still being written (never installed)",
-	"(*leveldb.DB).memCompaction$2":          "revert of a failed/aborted flush: tables never installed",
+	"(*leveldb.tOps).remove$1":                 "the file-cache deletion callback: runs after the last reader handle is released",
+	"(*leveldb.tWriter).drop":                  "a table still being written (never installed)",
+	"(*leveldb.DB).memCompaction$2":            "revert of a failed/aborted flush: tables never installed",
 	"(*leveldb.tableCompactionBuilder).revert": "revert of an aborted compaction build: outputs never installed",
-	"(*leveldb.DB).dropFrozenMem":            "the frozen journal, after its flush was committed (C04.7)",
-	"(*leveldb.DB).recoverJournal":           "replayed journals, after the superseding commit (C04.8)",
-	"(*leveldb.session).newManifest$1":       "superseded manifest after a successful switch / the failed new manifest (C04.5)",
-	"(*leveldb.DB).checkAndCleanFiles":       "startup sweep of files not referenced by the recovered state (C07.6)",
-	"leveldb.recoverTable$1$1":               "temporary file of a failed table rebuild",
+	"(*leveldb.DB).dropFrozenMem":              "the frozen journal, after its flush was committed (C04.7)",
+	"(*leveldb.DB).recoverJournal":             "replayed journals, after the superseding commit (C04.8)",
+	"(*leveldb.session).newManifest$1":         "superseded manifest after a successful switch / the failed new manifest (C04.5)",
+	"(*leveldb.DB).checkAndCleanFiles":         "startup sweep of files not referenced by the recovered state (C07.6)",
+	"leveldb.recoverTable$1$1":                 "temporary file of a failed table rebuild",
 }
 
 func runC07(p *Prog, r *Report) {
@@ -149,6 +149,50 @@ func ruleDeleters(p *Prog, r *Report, rule string) {
 			checkGuard(p, r, GuardSpec{Rule: "remove-at-zero-refs", Fn: f, Target: rmT, TargetDesc: "tops.remove(table)", Atoms: []Atom{zero}, G: func(a []bool) bool { return a[0] }, GDesc: "addFileRef(num, -1) == 0", MinTargets: 1})
 		})
 		r.Check(n >= 2, fnName(fn), "two-removal-sites", "the reference loop removes tables in applyDelta and in the full-release path", fmt.Sprintf("%d removal sites", n), p.Pos(fn.Pos()))
+		// converting a long-pinned version to full references: FileRef(i+1) = FileRef(i) + Delta(i):
+		// the version's own files are referenced BEFORE its delta is applied (otherwise a table the
+		// delta deletes drops to zero and is removed while the pinned version still needs it)
+		withAnons(fn, func(f *ssa.Function) {
+			isApply := func(in ssa.Instruction) bool {
+				c, ok := in.(*ssa.Call)
+				if !ok {
+					return false
+				}
+				cal := closureCallee(&c.Call)
+				return cal != nil && countInstr(cal, evCall("(*leveldb.tOps).remove")) > 0 && cal.Parent() == fn
+			}
+			isRefUp := func(in ssa.Instruction) bool {
+				c, ok := in.(*ssa.Call)
+				if !ok || len(c.Call.Args) != 2 {
+					return false
+				}
+				cal := closureCallee(&c.Call)
+				if cal == nil || cal.Parent() != fn || countInstr(cal, isPanic) == 0 {
+					return false
+				}
+				k, ok := constInt(c.Call.Args[1])
+				return ok && k == 1
+			}
+			if countInstr(f, isApply) > 0 && countInstr(f, isRefUp) > 0 && f != fn {
+				r.Fn(fnName(f))
+				// within one conversion step (between two reads of ref[next].files): apply only after the +1 loop
+				r.Site(1)
+				nextStep := evStoreCell("next")
+				viol := false
+				var wit []*ssa.BasicBlock
+				for _, pt := range after(f, isApply) {
+					if w := findPath([]point{pt}, nil, orPred(isApply, nextStep), isRefUp); w != nil {
+						viol = true
+						wit = w
+					}
+				}
+				if viol {
+					r.Fail(fnName(f), "delta-before-reference", "a pinned version's files are referenced before its delta is applied", "applyDelta can run before the +1 reference loop of the same conversion step: tables deleted by the delta reach zero references and are removed while the pinned version (e.g. under a long-lived iterator) still reads them", p.Pos(f.Pos()), p.renderPath(wit))
+					return
+				}
+				r.OK(fnName(f), "reference-before-delta", "a pinned version's files are referenced before its delta is applied")
+			}
+		})
 		// addFileRef panics on negative counts and deletes the entry at zero
 		direct := 0
 		withAnons(fn, func(f *ssa.Function) { direct += countInstr(f, rm) })
@@ -254,9 +298,9 @@ func ruleMemRefs(p *Prog, r *Report, rule string) {
 	defer r.End()
 	acquirers := []string{"(*leveldb.DB).getMems", "(*leveldb.DB).getEffectiveMem", "(*leveldb.DB).getFrozenMem", "(*leveldb.DB).newMem", "(*leveldb.DB).rotateMem", "(*leveldb.DB).flush"}
 	owned := map[string]string{
-		"(*leveldb.DB).dropFrozenMem|leveldb.DB.frozenMem":          "the DB's own reference to the frozen buffer, dropped once its flush is committed",
-		"(*leveldb.Transaction).setDone|leveldb.Transaction.mem":    "the transaction's own reference",
-		"(*leveldb.Transaction).flush|leveldb.Transaction.mem":      "the transaction's own reference (buffer replaced because iterators still hold it)",
+		"(*leveldb.DB).dropFrozenMem|leveldb.DB.frozenMem":           "the DB's own reference to the frozen buffer, dropped once its flush is committed",
+		"(*leveldb.Transaction).setDone|leveldb.Transaction.mem":     "the transaction's own reference",
+		"(*leveldb.Transaction).flush|leveldb.Transaction.mem":       "the transaction's own reference (buffer replaced because iterators still hold it)",
 		"(*leveldb.memdbReleaser).Release$1|leveldb.memdbReleaser.m": "the reference handed to the iterator's releaser",
 	}
 	usedOwned := map[string]bool{}
